@@ -228,8 +228,8 @@ HasCustomSerialization(rev) == rev >= 54454
 
 \* columns of a block: ts[i] is the type AST the i-th column is decoded with (the caller derives it from the
 \* type name it expects); returns the names, type names and values
-DecBlock(rev, ts, b, p0) ==
-  LET info == IF HasBlockInfo(rev) THEN DecInfo(b, p0) ELSE OK([overflows |-> 0, bucket |-> <<0, 0, 0, 0>>], p0) IN
+DecBlockWith(withInfo, rev, ts, b, p0) ==
+  LET info == IF withInfo THEN DecInfo(b, p0) ELSE OK([overflows |-> 0, bucket |-> <<0, 0, 0, 0>>], p0) IN
   IF ~info.ok THEN info ELSE
   LET nc == UVarInt(b, info.p) IN IF ~nc.ok THEN nc ELSE
   LET nr == UVarInt(b, nc.p) IN IF ~nr.ok THEN nr ELSE
@@ -247,4 +247,7 @@ DecBlock(rev, ts, b, p0) ==
                   LET c == DecCol(ts[i], nr.v, b, st.p) IN IF ~c.ok THEN c ELSE
                   F(i + 1, c.p, Append(acc, [name |-> name.v, type |-> ty.v, vals |-> c.v]))
   IN F(1, nr.p, <<>>)
+DecBlock(rev, ts, b, p0) == DecBlockWith(HasBlockInfo(rev), rev, ts, b, p0)
+\* a raw block: no BlockInfo in front
+DecRawBlock(rev, ts, b, p0) == DecBlockWith(FALSE, rev, ts, b, p0)
 =============================================================================
